@@ -840,10 +840,32 @@ func (l *List) Present(st funcGen.Stack[Value]) (Value, error) {
 func (l *List) Top(st funcGen.Stack[Value]) (*List, error) {
 	if i, ok := st.Get(1).(Int); ok {
 		return NewListFromIterable(func(st funcGen.Stack[Value]) iterator.Producer[Value] {
-			return iterator.FirstN[Value](l.iterable(st), int(i))
+			return firstN(l.iterable(st), int(i))
 		}), nil
 	}
 	return nil, errors.New("error in top, no int given")
+}
+
+// firstN returns the first n elements of the given producer. In contrast to
+// iterator.FirstN it stops the producer right after the n-th element is
+// consumed, without requesting the element n+1, and it returns no element at
+// all if n is zero or negative.
+func firstN(items iterator.Producer[Value], n int) iterator.Producer[Value] {
+	return func(yield iterator.Consumer[Value]) {
+		if n <= 0 {
+			return
+		}
+		i := 0
+		for v, err := range items {
+			if !yield(v, err) {
+				return
+			}
+			i++
+			if i >= n {
+				return
+			}
+		}
+	}
 }
 
 func (l *List) Skip(st funcGen.Stack[Value]) (*List, error) {
